@@ -50,14 +50,12 @@ def main(argv=None):
             raise core.AnalysisError('pytableaux was imported during a static check')
         if replay_keys is not None:
             rep.findings = [f for f in rep.findings if f.key in replay_keys]
-        status = core.finish(rep, mod.LEVEL, mod.EXPLANATION, mod.TRUSTED, mod.ASSUMPTIONS,
-                             write_evidence=not (args.no_evidence or args.only or args.replay or args.repo != '/repo'),
-                             only=only)
-        if status == 0 and args.tier == 'thorough' and not args.no_selftest and args.repo == '/repo':
+        real = args.repo == '/repo' and not (args.only or args.replay)
+        if real and args.tier == 'thorough' and not args.no_selftest:
             from . import selftest
-            st = selftest.run_for(pid)
-            if st != 0:
-                return st
+            selftest.run_for(pid, rep)
+        status = core.finish(rep, mod.LEVEL, mod.EXPLANATION, mod.TRUSTED, mod.ASSUMPTIONS,
+                             write_evidence=not args.no_evidence and real, only=only)
         return status
     return core.main_guard(go)
 
